@@ -338,6 +338,17 @@ func Main() {
 		var prevSigs []string
 		sameSigs := true
 		for attempt := 1; ; attempt++ {
+			// a re-execution waits much longer for the network before the virtual clock may jump (20 ms, then
+			// 100 ms of real time per jump instead of 0.3 ms): an anomaly caused by late delivery of loopback
+			// packets on a loaded machine does not repeat, a delay caused by the code under test does
+			switch attempt {
+			case 1:
+				SetPollDelay(DefaultPollDelay)
+			case 2:
+				SetPollDelay(20e6)
+			default:
+				SetPollDelay(100e6)
+			}
 			co := newOut()
 			co.curCase = cv
 			co.Samples = append(co.Samples, out.Samples...)
@@ -345,6 +356,7 @@ func Main() {
 			part.run(env, c, co)
 			if anomalyCount.Load() == a0 {
 				out.merge(co)
+				SetPollDelay(DefaultPollDelay)
 				break
 			}
 			out.Anomalies++
@@ -371,6 +383,7 @@ func Main() {
 				} else {
 					out.Inconclusive = append(out.Inconclusive, fmt.Sprintf("case %s: time anomaly on %d attempts, observations discarded (%s)", c, attempt, why))
 				}
+				SetPollDelay(DefaultPollDelay)
 				break
 			}
 		}
